@@ -4,7 +4,9 @@
 From Coq Require Import ExtrOcamlBasic.
 From Coq Require Import Strings.Byte NArith ZArith List.
 From Coq Require Import Strings.String.
-From LLIR Require Import Lib.Bytes Model.Natsort Model.Assemble Model.Writer Gen.Enums Model.GoEval Proofs.EnumProofs Model.IntLit.
+Import ListNotations.
+Local Open Scope list_scope.
+From LLIR Require Import Lib.Bytes Lib.Radix Model.Natsort Model.Assemble Model.Writer Gen.Enums Proofs.EnumProofs Model.IntLit Model.Enc.
 
 Definition byte_of_N_total (n : N) : byte := match Byte.of_N n with Some b => b | None => x00 end.
 (* C19: run the chunks against a writer failing after k bytes: (size, failed?, delivered, calls) *)
@@ -12,7 +14,20 @@ Definition writeto_fail_after (k : nat) (chunks : list bytes) : nat * bool * byt
   let s := run nat (fail_after k) 0 chunks in
   (fw_size nat s, match fw_err nat s with Some _ => true | None => false end, fw_delivered nat s, fw_calls nat s).
 (* C18: the regenerated keyword tables *)
-Definition enum_str (ty : string) (v : Z) : bytes := enum_string ty v.
+Definition bytes_of_string (s : string) : bytes := list_byte_of_string s.
+Definition enum_table (ty : string) : option enum_tables :=
+  find (fun t => EnumProofs.bytes_eqb (e_name t) (bytes_of_string ty)) all_enums.
+Definition print_Z (z : Z) : bytes :=
+  match z with Zneg p => x2d :: Radix.print_dec_N (Npos p) | _ => Radix.print_dec_N (Z.to_N z) end.
+(* String() of an enum value: the keyword from the regenerated table, or Type(n) *)
+Definition enum_str (ty : string) (v : Z) : bytes :=
+  match enum_table ty with
+  | Some t => match to_string t v with
+              | Some s => s
+              | None => (bytes_of_string ty ++ [x28] ++ print_Z v ++ [x29])%list
+              end
+  | None => nil
+  end.
 Definition enum_from (ty : string) (s : bytes) : option Z :=
   match enum_table ty with
   | Some t => match from_string t s with EnumProofs.Ok v => Some v | EnumProofs.Panic => None end
@@ -26,11 +41,22 @@ Definition flagset_value (ty : string) (names : list bytes) : option Z :=
 (* outcomes cross the extraction boundary as (code, payload): 0 Ok, 1 Err, 2 Panic -- so that the OCaml
    side does not depend on how extraction renames the constructors of the models' outcome types *)
 Definition c09_parse (w : N) (s : bytes) : nat * Z :=
-  match parse_int w s with IntLit.Ok v => (0, v) | IntLit.Err => (1, 0%Z) | IntLit.Panic => (2, 0%Z) end.
+  match IntLit.parse_int w s with IntLit.Ok v => (0, v) | IntLit.Err => (1, 0%Z) | IntLit.Panic => (2, 0%Z) end.
 Definition c09_ident (hex : bool) (w : N) (x : Z) : nat * bytes :=
-  match ident (fun _ => hex) w x with IntLit.Ok v => (0, v) | IntLit.Err => (1, nil) | IntLit.Panic => (2, nil) end.
+  match IntLit.ident (fun _ => hex) w x with IntLit.Ok v => (0, v) | IntLit.Err => (1, nil) | IntLit.Panic => (2, nil) end.
+(* C11 *)
+Definition c11_ident (o : option Enc.ident) : nat * bytes * Z :=
+  match o with Some (Enc.Name s) => (0, s, 0%Z) | Some (Enc.ID k) => (1, nil, k) | None => (2, nil, 0%Z) end.
+Definition c11_dec_global (n : bytes) := c11_ident (decode_global (global_name n)).
+Definition c11_dec_local (n : bytes) := c11_ident (decode_local (local_name n)).
+Definition c11_dec_label (n : bytes) := c11_ident (decode_label (label_name n)).
+Definition c11_dec_type (n : bytes) := decode_type (type_name n).
+Definition c11_dec_comdat (n : bytes) := decode_comdat (comdat_name n).
+Definition c11_dec_metadata (n : bytes) := match metadata_name n with Some t => decode_metadata_name t | None => None end.
 Definition sort_ids (l : list Z) : list Z := isort Z.ltb l.
 
 Extraction "model.ml" byte_of_N_total Byte.to_N
   Natsort.less Natsort.sort_strings sort_ids
-  writeto_fail_after enum_str enum_from cc_read flagset_value c09_parse c09_ident.
+  writeto_fail_after enum_str enum_from cc_read flagset_value c09_parse c09_ident
+  Enc.global_name Enc.local_name Enc.label_name Enc.type_name Enc.comdat_name Enc.metadata_name Enc.escape_ident Enc.escape_string Enc.quote Enc.unescape
+  Enc.global_id Enc.local_id Enc.label_id c11_dec_global c11_dec_local c11_dec_label c11_dec_type c11_dec_comdat c11_dec_metadata.
